@@ -161,6 +161,26 @@ pub fn run(args: &Args) -> Report {
                 rep.violation("C09|recorded|oracle-rejects-recorded-triple", &format!("{}: the oracle rejects the prover's own nonce", f.name), replay.clone());
             }
             rep.inc("pow_recorded_triples");
+            // a nonce the oracle refuses must stop the verifier at the proof-of-work step: an error,
+            // and no transcript activity after the last FRI layer was absorbed
+            let honest_prefix = run.events.iter().rposition(|e| matches!(e, swiftness_transcript::verif::Event::AbsorbFelt { before, value, .. } if *before == d && *value == Felt::from(nonce))).unwrap_or(0);
+            for bad in [nonce.wrapping_add(1), nonce.wrapping_sub(1), 0, u64::MAX, nonce ^ (1 << 63), nonce.swap_bytes()] {
+                if bad == nonce || vcommon::pow::pow_ok(kind, &db, n_bits, bad) {
+                    continue;
+                }
+                let mut p2: swiftness_stark::types::StarkProof = serde_json::from_value(serde_json::to_value(&proof).unwrap()).unwrap();
+                p2.unsent_commitment.proof_of_work.nonce = bad;
+                let r2 = trace::run_verify(&f.layout, &p2, sec, u64::MAX);
+                rep.inc("pow.bad_nonce_runs");
+                let rp = json!({"file": f.name, "nonce": bad, "n_bits": n_bits, "digest": hex(&d)});
+                if r2.verdict.accepted() {
+                    rep.violation("C09|recorded|bad-nonce-accepted", &format!("{}: nonce {bad} is refused by the oracle but the proof was accepted", f.name), rp);
+                } else if matches!(r2.verdict, Verdict::Rejected(_)) && r2.events.len() != honest_prefix {
+                    rep.violation("C09|recorded|bad-nonce-did-not-stop-the-verifier", &format!("{}: nonce {bad} is refused by the oracle, yet the verifier went on ({} transcript events instead of {honest_prefix}; verdict {})", f.name, r2.events.len(), r2.verdict.short()), rp);
+                } else {
+                    rep.inc("pow.bad_nonce_stopped_at_pow");
+                }
+            }
             if rep.samples.len() < 3 {
                 rep.sample(json!({"file": f.name, "n_bits": n_bits, "nonce": nonce, "digest_before_nonce": hex(&d), "queries": mine.len(), "challenges_equal_prover_log": all_eq}));
             }
